@@ -3,6 +3,7 @@ import RedisVerif.Model.LuaConv
 import RedisVerif.Lemmas.Grammar
 import RedisVerif.Lemmas.GrammarOpts
 import RedisVerif.Lemmas.GrammarLua
+import RedisVerif.Lemmas.GrammarErrs
 
 /-!
 # C16 — a command means the same via every entry path (both parsers, Lua redis.call)
@@ -152,6 +153,10 @@ theorem findSpec_mem {l : List Spec} {k : Bytes} {s : Spec} (h : findSpec l k = 
     · simp at h; simp [h]
     · simp [ih h]
 
+theorem parse_of_find {name : Bytes} {s : Spec} (h : findEntry table (kw name) = some (.cmd s))
+    (args : List Bytes) : parseCmd (name :: args) = s.run args := by
+  simp only [parseCmd, parseWith, h]
+
 theorem run_arity_iff (s : Spec) (args : List Bytes) (t : Bytes) :
     s.run args = .error (.arity t) ↔ (s.arity.ok args.length = false ∧ t = s.arityErr) := by
   unfold Spec.run
@@ -268,22 +273,24 @@ theorem spec_mem_allSpecs {name : Bytes} {s : Spec} (h : findEntry table (kw nam
 theorem arity_text_exact (name : Bytes) (args : List Bytes) (s : Spec)
     (h : findEntry table (kw name) = some (.cmd s)) :
     (errText (parseCmd (name :: args)) = some s.arityErr ↔ s.arity.ok args.length = false) := by
+  rw [parse_of_find h]
   constructor
   · intro ht
-    cases hr : parseCmd (name :: args) with
-    | ok c => rw [hr] at ht; simp [errText] at ht
-    | error e =>
-      rw [hr] at ht
-      cases e with
-      | arity t =>
-        simp only [errText, Err.text, Option.some.injEq] at ht
-        subst ht
-        exact (arity_exact name args s h).mp hr
-      | body b =>
+    unfold Spec.run at ht
+    cases hk : s.arity.ok args.length with
+    | false => rfl
+    | true =>
+      rw [hk] at ht
+      simp only [if_true] at ht
+      cases hb : s.body.run args with
+      | ok c => rw [hb] at ht; simp [errText] at ht
+      | error b =>
+        rw [hb] at ht
         simp only [errText, Err.text] at ht
         exact absurd ht (berr_text_ne_arity b _ (spec_mem_allSpecs h))
   · intro hk
-    rw [(arity_exact name args s h).mpr hk]
+    unfold Spec.run
+    rw [hk]
     rfl
 
 /-- non-vacuity: concrete rows of the table, any letter case -/
@@ -349,7 +356,7 @@ def C16_lua_agrees : Prop := ∀ f : List Bytes, parseLua f = parseCmd f
 /-- the translator has no entry for APPEND (nor for ~80 other commands) -/
 theorem lua_unknown_command :
     (parseCmd [s2b "APPEND", s2b "k", s2b "v"]).isOk = true ∧
-    parseLua [s2b "APPEND", s2b "k", s2b "v"] = .error (.body (.fmt .luaUnknownCmd (s2b "APPEND"))) := by decide
+    parseLua [s2b "APPEND", s2b "k", s2b "v"] = .error (.unknown (s2b "APPEND")) := by decide
 
 /-- it knows only NX / XX / GET / EX / PX of SET … -/
 theorem lua_set_keepttl_rejected :
@@ -454,10 +461,6 @@ theorem lua_number_becomes_integer (i : Int) : luaToResp (.num i) = .int i := by
   simp [luaToResp]
 
 /-! ## 6. option order (SET, EXPIRE, PEXPIRE, GETEX) -/
-
-theorem parse_of_find {name : Bytes} {s : Spec} (h : findEntry table (kw name) = some (.cmd s))
-    (args : List Bytes) : parseCmd (name :: args) = s.run args := by
-  simp only [parseCmd, parseWith, h]
 
 /-- lift a body result into a parse result -/
 def liftB : BRes → Res
@@ -886,6 +889,430 @@ theorem lua_zrangebyscore_limit_same :
     (parseLua [s2b "ZRANGEBYSCORE", s2b "z", s2b "0", s2b "1", s2b "LIMIT", s2b "0", s2b "9223372036854775808"]).isOk = false ∧
     (parseCmd [s2b "ZRANGEBYSCORE", s2b "z", s2b "0", s2b "1", s2b "LIMIT", s2b "0", s2b "9223372036854775808"]).isOk = false := by
   decide
+
+
+/-! ## 9. which differences between redis.call and the client path the current code has, exactly
+
+These statements delimit the recorded findings by their CAUSE: the harness reports a listed
+signature only for the inputs named here and anything else under an unlisted signature. -/
+
+/-- the translator's table: exactly these command names (in match order) -/
+def luaNames : List String :=
+  ["GET", "SET", "DEL", "INCR", "DECR", "INCRBY", "HGET", "HSET", "HDEL", "LPUSH", "RPUSH", "LPOP", "RPOP", "LLEN",
+   "SADD", "SREM", "SMEMBERS", "EXISTS", "EXPIRE", "TTL", "TYPE", "HINCRBY", "LRANGE", "RPOPLPUSH", "LMOVE", "HGETALL",
+   "SISMEMBER", "ZADD", "ZREM", "ZRANGE", "ZSCORE", "ZCARD", "ZCOUNT", "ZRANGEBYSCORE"]
+
+theorem lua_table_names : luaTable.map Entry.name = luaNames.map s2b := by decide +kernel
+
+theorem luaTable_all_cmd : luaTable.all (fun e => match e with | .cmd _ => true | _ => false) = true := by
+  decide +kernel
+
+def luaArityErrs : List Bytes :=
+  luaTable.flatMap fun e => match e with
+    | .cmd s => [s.arityErr]
+    | .family _ a subs _ => a :: subs.map (·.arityErr)
+
+theorem take_ne_of_prefix_ne {a b x y : Bytes} (m : Nat) (hm1 : m ≤ a.length) (hm2 : m ≤ b.length)
+    (h : a.take m ≠ b.take m) : a ++ x ≠ b ++ y := by
+  intro he
+  apply h
+  have := congrArg (List.take m) he
+  rwa [List.take_append_of_le_length hm1, List.take_append_of_le_length hm2] at this
+
+theorem lua_arity_ne_unknown : luaArityErrs.all (fun a => a.take unknownPre.length != unknownPre) = true := by
+  decide +kernel
+
+theorem lit_ne_unknown : ∀ l : Lit, (l.text.take unknownPre.length != unknownPre) = true := by
+  intro l; cases l <;> decide
+
+theorem fmt_ne_unknown : ∀ f : Fmt,
+    (f.pre.take (min f.pre.length unknownPre.length) != unknownPre.take (min f.pre.length unknownPre.length)) = true := by
+  intro f; cases f <;> decide
+
+theorem ne_unknown_of_take {t : Bytes} (h : (t.take unknownPre.length != unknownPre) = true) (n : Bytes) :
+    t ≠ unknownPre ++ n ++ unknownSuf := by
+  intro he
+  rw [he, List.append_assoc, List.take_left'] at h
+  simp at h
+  rfl
+
+theorem berr_text_ne_unknown (e : BErr) (n : Bytes) : e.text ≠ some (unknownPre ++ n ++ unknownSuf) := by
+  cases e with
+  | crash => simp [BErr.text]
+  | unreachable =>
+    simp only [BErr.text, ne_eq, Option.some.injEq]
+    exact ne_unknown_of_take (by decide) n
+  | lit l =>
+    simp only [BErr.text, ne_eq, Option.some.injEq]
+    exact ne_unknown_of_take (lit_ne_unknown l) n
+  | fmt f p =>
+    simp only [BErr.text, ne_eq, Option.some.injEq, List.append_assoc]
+    have h := fmt_ne_unknown f
+    simp only [bne_iff_ne, ne_eq] at h
+    exact take_ne_of_prefix_ne _ (Nat.min_le_left _ _) (Nat.min_le_right _ _) h
+
+/-- a command comes back "unknown" from redis.call exactly when the translator's table has no entry
+    for its (normalised) name; no other error path of the translator has that text.  So an
+    "unknown" answer for a name in `luaNames` is not the recorded finding but a new defect. -/
+theorem lua_unknown_iff_not_in_luaTable (name : Bytes) (args : List Bytes) :
+    (∃ n, errText (parseLua (name :: args)) = some (unknownPre ++ n ++ unknownSuf)) ↔
+      findEntry luaTable (kw name) = none := by
+  constructor
+  · intro ⟨n, hn⟩
+    cases he : findEntry luaTable (kw name) with
+    | none => rfl
+    | some e =>
+      exfalso
+      have hall := (List.all_eq_true.mp luaTable_all_cmd) e (findEntry_mem he)
+      cases e with
+      | family a b c d => simp at hall
+      | cmd l =>
+        simp only [parseLua, he, parseWith] at hn
+        unfold Spec.run at hn
+        split at hn
+        · cases hb : l.body.run args with
+          | ok c => rw [hb] at hn; simp [errText] at hn
+          | error b =>
+            rw [hb] at hn
+            simp only [errText, Err.text] at hn
+            exact berr_text_ne_unknown b n hn
+        · simp only [errText, Err.text, Option.some.injEq] at hn
+          have hm : l.arityErr ∈ luaArityErrs := by
+            simp only [luaArityErrs, List.mem_flatMap]
+            exact ⟨.cmd l, findEntry_mem he, by simp⟩
+          have := List.all_eq_true.mp lua_arity_ne_unknown _ hm
+          exact ne_unknown_of_take this n hn
+  · intro he
+    exact ⟨kw name, by simp [parseLua, he, errText, Err.text]⟩
+
+/-- the names whose ARITY error text differs between the translator and the RESP grammar, with
+    both texts (translator, RESP grammar) -/
+def luaArityDiff : List (Bytes × Bytes × Bytes) :=
+  luaTable.filterMap fun e => match e with
+    | .cmd l => match findEntry table l.name with
+      | some (.cmd m) => if l.arityErr = m.arityErr then none else some (l.name, l.arityErr, m.arityErr)
+      | _ => none
+    | _ => none
+
+theorem lua_arity_text_differs_only_on :
+    luaArityDiff =
+      [ (s2b "GET", s2b "GET requires 1 argument", wrongArgs "get"),
+        (s2b "INCR", s2b "INCR requires 1 argument", wrongArgs "incr"),
+        (s2b "DECR", s2b "DECR requires 1 argument", wrongArgs "decr"),
+        (s2b "INCRBY", s2b "INCRBY requires 2 arguments", wrongArgs "incrby"),
+        (s2b "HDEL", s2b "HDEL requires key and at least 1 field", s2b "HDEL requires at least 2 arguments"),
+        (s2b "LPUSH", s2b "LPUSH requires key and at least 1 value", s2b "LPUSH requires at least 2 arguments"),
+        (s2b "RPUSH", s2b "RPUSH requires key and at least 1 value", s2b "RPUSH requires at least 2 arguments"),
+        (s2b "SADD", s2b "SADD requires key and at least 1 member", s2b "SADD requires at least 2 arguments"),
+        (s2b "SREM", s2b "SREM requires key and at least 1 member", s2b "SREM requires at least 2 arguments"),
+        (s2b "EXPIRE", s2b "EXPIRE requires 2 arguments", s2b "EXPIRE requires at least 2 arguments"),
+        (s2b "ZREM", s2b "ZREM requires key and at least 1 member", s2b "ZREM requires at least 2 arguments"),
+        (s2b "ZRANGE", s2b "ZRANGE requires 3 arguments", s2b "ZRANGE requires 3 or 4 arguments") ] := by
+  decide +kernel
+
+
+/-- one row per translator entry: every error it can answer -/
+structure LuaErrRow where
+  name : Bytes
+  arity : Bytes
+  lits : List Lit
+  fmts : List Fmt
+  deriving DecidableEq, Repr
+
+/-- the error literals / formatted errors of the translator's hand-written bodies -/
+def luaCustomErrs (name : Bytes) : Option (List Lit × List Fmt) :=
+  if name = s2b "SET" then some ([.luaSetExInt, .luaSetEx, .luaSetPxInt, .luaSetPx, .nxxx], [.luaUnknownSet])
+  else if name = s2b "EXPIRE" then some ([.luaExpireInt], [])
+  else if name = s2b "LMOVE" then some ([.lmoveFrom, .lmoveTo], [])
+  else if name = s2b "ZADD" then some ([.zaddPairs, .luaZaddScore], [])
+  else if name = s2b "ZRANGE" then some ([.luaZrangeStart, .luaZrangeStop], [])
+  else if name = s2b "ZRANGEBYSCORE" then some ([.luaLimitOffset, .luaLimitCount, .luaLimitMissing], [.unknownZrbs])
+  else none
+
+def luaRow (l : Spec) : LuaErrRow :=
+  match luaCustomErrs l.name with
+  | some (ls, fs) => ⟨l.name, l.arityErr, ls, fs⟩
+  | none => ⟨l.name, l.arityErr, l.body.lits, []⟩
+
+/-- the translator's error alphabet, per command (derived from `luaTable`) -/
+def luaErrTable : List LuaErrRow :=
+  luaTable.filterMap fun e => match e with
+    | .cmd l => some (luaRow l)
+    | .family _ _ _ _ => none
+
+def rowAllows (r : LuaErrRow) : Err → Bool
+  | .arity t => t == r.arity
+  | .body (.lit l) => r.lits.contains l
+  | .body (.fmt f _) => r.fmts.contains f
+  | _ => false
+
+theorem luaTable_dsl_ok :
+    luaTable.all (fun e => match e with
+      | .cmd l => (luaCustomErrs l.name).isSome || dslOk l
+      | _ => false) = true := by decide +kernel
+
+/-- every error the translator answers for a command is the "unknown command" error (no table
+    entry) or is listed in the command's row of `luaErrTable`: its arity text, one of its error
+    literals, or one of its formatted errors.  An error text outside the row is not one of the
+    recorded differences but a new defect. -/
+theorem lua_error_alphabet (name : Bytes) (args : List Bytes) (err : Err)
+    (h : parseLua (name :: args) = .error err) :
+    (findEntry luaTable (kw name) = none ∧ err = .unknown (kw name)) ∨
+    ∃ r ∈ luaErrTable, r.name = kw name ∧ rowAllows r err = true := by
+  simp only [parseLua] at h
+  cases he : findEntry luaTable (kw name) with
+  | none => rw [he] at h; simp only [Except.error.injEq] at h; exact Or.inl ⟨rfl, h.symm⟩
+  | some e =>
+    right
+    rw [he] at h
+    simp only [parseWith, he] at h
+    have hmem := findEntry_mem he
+    have hd := (List.all_eq_true.mp luaTable_dsl_ok) e hmem
+    have hname := findEntry_name he
+    cases e with
+    | family a b c d => simp at hd
+    | cmd l =>
+      simp only [Entry.name] at hname
+      simp only at h hd
+      refine ⟨luaRow l, List.mem_filterMap.mpr ⟨.cmd l, hmem, rfl⟩, ?_, ?_⟩
+      · unfold luaRow; split <;> exact hname
+      · unfold Spec.run at h
+        cases har : l.arity.ok args.length with
+        | false =>
+          rw [har] at h
+          simp only [Bool.false_eq_true, if_false, Except.error.injEq] at h
+          subst h
+          unfold luaRow; split <;> simp [rowAllows]
+        | true =>
+          rw [har] at h
+          simp only [if_true] at h
+          cases hb : l.body.run args with
+          | ok c => rw [hb] at h; simp at h
+          | error b =>
+            rw [hb] at h
+            simp only [Except.error.injEq] at h
+            subst h
+            by_cases h1 : kw name = s2b "SET"
+            · rw [h1, find_lua_set] at he
+              simp only [Option.some.injEq, Entry.cmd.injEq] at he
+              subst he
+              have hl : 2 ≤ args.length := by simpa [luaSetSpec, customSpec, Arity.ok] using har
+              rcases luaSet_err hl (show Bodies.luaSet args = .error b from hb) with ⟨x, hx, rfl⟩ | ⟨w, rfl⟩
+              · simp only [List.mem_cons, List.mem_nil_iff, or_false] at hx
+                rcases hx with rfl | rfl | rfl | rfl | rfl <;> decide
+              · show (luaRow luaSetSpec).fmts.contains Fmt.luaUnknownSet = true
+                decide
+            · by_cases h2 : kw name = s2b "EXPIRE"
+              · rw [h2, find_lua_expire] at he
+                simp only [Option.some.injEq, Entry.cmd.injEq] at he
+                subst he
+                have hl : args.length = 2 := by simpa [luaExpireSpec, customSpec, Arity.ok] using har
+                rw [luaExpire_err hl (show Bodies.luaExpire args = .error b from hb)]
+                decide
+              · by_cases h3 : kw name = s2b "LMOVE"
+                · rw [h3, find_lua_lmove] at he
+                  simp only [Option.some.injEq, Entry.cmd.injEq] at he
+                  subst he
+                  have hl : args.length = 4 := by simpa [lmoveSpec, customSpec, Arity.ok] using har
+                  rcases lmove_err hl (show Bodies.lmove args = .error b from hb) with rfl | rfl <;> decide
+                · by_cases h4 : kw name = s2b "ZADD"
+                  · rw [h4, find_lua_zadd] at he
+                    simp only [Option.some.injEq, Entry.cmd.injEq] at he
+                    subst he
+                    have hl : 3 ≤ args.length := by simpa [luaZaddSpec, customSpec, Arity.ok] using har
+                    rcases zadd_err _ hl (show Bodies.zadd { kind := .flt, onErr := some .luaZaddScore } args = .error b from hb)
+                      with rfl | ⟨x, hx, rfl⟩
+                    · decide
+                    · simp [argErrs] at hx; subst hx; decide
+                  · by_cases h5 : kw name = s2b "ZRANGE"
+                    · rw [h5, find_lua_zrange] at he
+                      simp only [Option.some.injEq, Entry.cmd.injEq] at he
+                      subst he
+                      have hl : args.length = 3 := by simpa [luaZrangeSpec, customSpec, Arity.ok] using har
+                      rcases luaZrange_err hl (show Bodies.luaZrange args = .error b from hb) with rfl | rfl <;> decide
+                    · by_cases h6 : kw name = s2b "ZRANGEBYSCORE"
+                      · rw [h6, find_lua_zrbs] at he
+                        simp only [Option.some.injEq, Entry.cmd.injEq] at he
+                        subst he
+                        have hl : 3 ≤ args.length := by simpa [luaZrbsSpec, customSpec, Arity.ok] using har
+                        rcases zrbs_err _ _ _ _ hl (show Bodies.zrangebyscore (aIntE .luaLimitOffset) (aIntE .luaLimitCount)
+                            .luaLimitMissing .unknownZrbs args = .error b from hb) with ⟨x, hx, rfl⟩ | ⟨w, rfl⟩
+                        · simp [argErrs, aIntE] at hx
+                          rcases hx with rfl | rfl | rfl <;> decide
+                        · show (luaRow luaZrbsSpec).fmts.contains Fmt.unknownZrbs = true
+                          decide
+                      · have hnone : luaCustomErrs l.name = none := by
+                          rw [hname]; simp [luaCustomErrs, h1, h2, h3, h4, h5, h6]
+                        simp only [hnone, Option.isSome_none, Bool.false_or] at hd
+                        obtain ⟨x, hx, rfl⟩ := dsl_err hd har hb
+                        simp only [luaRow, hnone, rowAllows, List.contains_iff_mem]
+                        exact hx
+
+/-- the commands for which the translator has an error literal of its own (a text the RESP
+    grammar never answers), with the literals -/
+theorem lua_own_literals :
+    (luaErrTable.filterMap fun r =>
+        let own := r.lits.filter fun l => !(([Lit.nxxx, .lmoveFrom, .lmoveTo, .zaddPairs] : List Lit).contains l)
+        if own.isEmpty then none else some (r.name, own)) =
+      [ (s2b "SET", [.luaSetExInt, .luaSetEx, .luaSetPxInt, .luaSetPx]),
+        (s2b "INCRBY", [.luaIncrbyInt]),
+        (s2b "EXPIRE", [.luaExpireInt]),
+        (s2b "HINCRBY", [.luaHincrbyInt]),
+        (s2b "LRANGE", [.luaLrangeStart, .luaLrangeStop]),
+        (s2b "ZADD", [.luaZaddScore]),
+        (s2b "ZRANGE", [.luaZrangeStart, .luaZrangeStop]),
+        (s2b "ZRANGEBYSCORE", [.luaLimitOffset, .luaLimitCount, .luaLimitMissing]) ] := by decide +kernel
+
+
+/-- table-level test for the other direction: a DSL entry of the translator has the SAME arity
+    rule as the RESP grammar's entry and the same slots -/
+def luaCheckRev : Entry → Bool
+  | .cmd l =>
+    luaCustoms.contains l.name ||
+    match findEntry table l.name with
+    | some (.cmd m) => l.arity == m.arity && bodyOkSub m.body l.body
+    | _ => false
+  | .family _ _ _ _ => false
+
+theorem luaTable_checked_rev : luaTable.all luaCheckRev = true := by decide +kernel
+
+/-- which frames the RESP grammar accepts and redis.call refuses — exactly: a command without a
+    translator entry; `SET` with one of the option words the translator lacks (it stops at the first:
+    `EXAT`, `PXAT`, `KEEPTTL`); `EXPIRE` with flags (three or more arguments); `ZRANGE` with a fourth
+    argument.  A refusal of an accepted frame outside this list is not a recorded finding. -/
+theorem lua_rejects_accepted_only_on (name : Bytes) (args : List Bytes) (c : Cmd) (e : Err)
+    (hc : parseCmd (name :: args) = .ok c) (he : parseLua (name :: args) = .error e) :
+    (findEntry luaTable (kw name) = none ∧ e = .unknown (kw name)) ∨
+    (kw name = s2b "SET" ∧ ∃ w ∈ setExtra, e = .body (.fmt .luaUnknownSet w)) ∨
+    (kw name = s2b "EXPIRE" ∧ e = .arity (req "EXPIRE" 2) ∧ 3 ≤ args.length) ∨
+    (kw name = s2b "ZRANGE" ∧ e = .arity (req "ZRANGE" 3) ∧ args.length = 4) := by
+  simp only [parseLua] at he
+  cases hf : findEntry luaTable (kw name) with
+  | none => rw [hf] at he; simp only [Except.error.injEq] at he; exact Or.inl ⟨rfl, he.symm⟩
+  | some en =>
+    right
+    rw [hf] at he
+    simp only [parseWith, hf] at he
+    have hchk := (List.all_eq_true.mp luaTable_checked_rev) en (findEntry_mem hf)
+    have hname := findEntry_name hf
+    cases en with
+    | family a b c d => simp [luaCheckRev] at hchk
+    | cmd l =>
+      simp only at he
+      simp only [Entry.name] at hname
+      by_cases h1 : kw name = s2b "SET"
+      · left
+        refine ⟨h1, ?_⟩
+        rw [h1, find_lua_set] at hf
+        simp only [Option.some.injEq, Entry.cmd.injEq] at hf
+        subst hf
+        rw [parse_of_find (s := setSpec) (by rw [h1]; exact find_set)] at hc
+        obtain ⟨har, hb⟩ := run_ok hc
+        rw [run_of (s := luaSetSpec) har] at he
+        rcases set_ok_lua args c hb with h' | ⟨w, hw, h'⟩
+        · have : luaSetSpec.body.run args = .ok c := h'
+          rw [this] at he; simp [liftB] at he
+        · have : luaSetSpec.body.run args = .error (.fmt .luaUnknownSet w) := h'
+          rw [this] at he
+          simp only [liftB, Except.error.injEq] at he
+          exact ⟨w, hw, he.symm⟩
+      · right
+        by_cases h2 : kw name = s2b "EXPIRE"
+        · left
+          refine ⟨h2, ?_⟩
+          rw [h2, find_lua_expire] at hf
+          simp only [Option.some.injEq, Entry.cmd.injEq] at hf
+          subst hf
+          rw [parse_of_find (s := expireSpec) (by rw [h2]; exact find_expire)] at hc
+          obtain ⟨har, hb⟩ := run_ok hc
+          have har' : 2 ≤ args.length := by simpa [expireSpec, customSpec, Arity.ok] using har
+          by_cases hl : args.length = 2
+          · exfalso
+            rw [run_of (s := luaExpireSpec) (by simp [luaExpireSpec, customSpec, Arity.ok, hl])] at he
+            have : luaExpireSpec.body.run args = .ok c := expire_ok_lua args c hl hb
+            rw [this] at he; simp [liftB] at he
+          · have hno : luaExpireSpec.arity.ok args.length = false := by
+              simp [luaExpireSpec, customSpec, Arity.ok, hl]
+            unfold Spec.run at he
+            rw [hno] at he
+            simp only [Bool.false_eq_true, if_false, Except.error.injEq] at he
+            exact ⟨he.symm, by omega⟩
+        · right
+          by_cases h5 : kw name = s2b "ZRANGE"
+          · refine ⟨h5, ?_⟩
+            rw [h5, find_lua_zrange] at hf
+            simp only [Option.some.injEq, Entry.cmd.injEq] at hf
+            subst hf
+            rw [parse_of_find (s := zrangeSpec) (by rw [h5]; exact find_zrange)] at hc
+            obtain ⟨har, hb⟩ := run_ok hc
+            have har' : 3 ≤ args.length ∧ args.length ≤ 4 := by simpa [zrangeSpec, customSpec, Arity.ok] using har
+            by_cases hl : args.length = 3
+            · exfalso
+              rw [run_of (s := luaZrangeSpec) (by simp [luaZrangeSpec, customSpec, Arity.ok, hl])] at he
+              have : luaZrangeSpec.body.run args = .ok c := zrange_ok_lua args c hl hb
+              rw [this] at he; simp [liftB] at he
+            · have hno : luaZrangeSpec.arity.ok args.length = false := by
+                simp [luaZrangeSpec, customSpec, Arity.ok, hl]
+              unfold Spec.run at he
+              rw [hno] at he
+              simp only [Bool.false_eq_true, if_false, Except.error.injEq] at he
+              exact ⟨he.symm, by omega⟩
+          · exfalso
+            by_cases h3 : kw name = s2b "LMOVE"
+            · rw [h3, find_lua_lmove] at hf
+              simp only [Option.some.injEq, Entry.cmd.injEq] at hf
+              subst hf
+              rw [parse_of_find (s := lmoveSpec) (by rw [h3]; exact find_lmove)] at hc
+              rw [hc] at he; simp at he
+            · by_cases h4 : kw name = s2b "ZADD"
+              · rw [h4, find_lua_zadd] at hf
+                simp only [Option.some.injEq, Entry.cmd.injEq] at hf
+                subst hf
+                rw [parse_of_find (s := zaddSpec) (by rw [h4]; exact find_zadd)] at hc
+                obtain ⟨har, hb⟩ := run_ok hc
+                rw [run_of (s := luaZaddSpec) har] at he
+                have : luaZaddSpec.body.run args = .ok c :=
+                  zadd_ok (a := aFlt) (b := { kind := .flt, onErr := some .luaZaddScore }) rfl args c hb
+                rw [this] at he; simp [liftB] at he
+              · by_cases h6 : kw name = s2b "ZRANGEBYSCORE"
+                · rw [h6, find_lua_zrbs] at hf
+                  simp only [Option.some.injEq, Entry.cmd.injEq] at hf
+                  subst hf
+                  rw [parse_of_find (s := zrbsSpec) (by rw [h6]; exact find_zrbs)] at hc
+                  obtain ⟨har, hb⟩ := run_ok hc
+                  rw [run_of (s := luaZrbsSpec) har] at he
+                  have : luaZrbsSpec.body.run args = .ok c :=
+                    zrangebyscore_ok aInt aInt (aIntE .luaLimitOffset) (aIntE .luaLimitCount) .limitMissing .luaLimitMissing
+                      .unknownZrbs .unknownZrbs rfl rfl args c hb
+                  rw [this] at he; simp [liftB] at he
+                · have hnc : luaCustoms.contains l.name = false := by
+                    rw [hname]
+                    simp only [luaCustoms, List.contains_cons, List.contains_nil, Bool.or_false, Bool.or_eq_false_iff,
+                      beq_eq_false_iff_ne, ne_eq]
+                    exact ⟨h1, h2, h3, h4, h5, h6⟩
+                  simp only [luaCheckRev, hnc, Bool.false_or] at hchk
+                  rw [hname] at hchk
+                  cases hm : findEntry table (kw name) with
+                  | none => rw [hm] at hchk; simp at hchk
+                  | some e' =>
+                    rw [hm] at hchk
+                    cases e' with
+                    | family a b c d => simp at hchk
+                    | cmd m =>
+                      simp only [Bool.and_eq_true, beq_iff_eq] at hchk
+                      rw [parse_of_find hm] at hc
+                      obtain ⟨har, hb⟩ := run_ok hc
+                      rw [run_of (s := l) (by rw [hchk.1]; exact har), body_ok_sub hchk.2 args c hb] at he
+                      simp [liftB] at he
+
+/-- non-vacuity: each listed shape occurs -/
+example :
+    (parseCmd [s2b "SET", s2b "k", s2b "v", s2b "GET", s2b "keepttl"]).isOk = true ∧
+    parseLua [s2b "SET", s2b "k", s2b "v", s2b "GET", s2b "keepttl"] = .error (.body (.fmt .luaUnknownSet (s2b "KEEPTTL"))) ∧
+    (parseCmd [s2b "EXPIRE", s2b "k", s2b "5", s2b "NX"]).isOk = true ∧
+    parseLua [s2b "EXPIRE", s2b "k", s2b "5", s2b "NX"] = .error (.arity (req "EXPIRE" 2)) ∧
+    (parseCmd [s2b "ZRANGE", s2b "z", s2b "0", s2b "-1", s2b "WITHSCORES"]).isOk = true ∧
+    parseLua [s2b "ZRANGE", s2b "z", s2b "0", s2b "-1", s2b "WITHSCORES"] = .error (.arity (req "ZRANGE" 3)) := by decide
 
 end C16
 end RedisVerif
